@@ -215,21 +215,37 @@ fn runs(out: &mut Out, r: &mut Rng, count: u64, long: u64) {
         while left > 0 && !stuck {
             let n = 1 + r.below(left as u64) as usize;
             let n = if r.chance(1, 2) { 1 } else { n };
-            emu.set_speed(EmulationMode::FrameCount(n));
+            // a quarter of the calls run in maximum-speed mode with a stopwatch that reports a long time at once: such a
+            // call emulates exactly one frame and returns Timeout; the host may switch modes between any two calls
+            let max_mode = r.chance(1, 4);
+            let n = if max_mode { 1 } else { n };
+            if max_mode {
+                SW_MODE.with(|m| m.set(1));
+                emu.set_speed(EmulationMode::Max);
+            } else {
+                emu.set_speed(EmulationMode::FrameCount(n));
+            }
             let mut calls = 0u64;
             loop {
-                let info = emu.emulate_frames(Duration::from_secs(100000)).expect("emulate");
-                if info.stop_reason == rustzx_core::EmulationStopReason::Completed {
+                let info = emu.emulate_frames(if max_mode { Duration::from_millis(1) } else { Duration::from_secs(100000) }).expect("emulate");
+                if info.stop_reason == (if max_mode { rustzx_core::EmulationStopReason::Timeout } else { rustzx_core::EmulationStopReason::Completed }) {
                     break;
                 }
                 assert!(bp_k != 0 && info.stop_reason == rustzx_core::EmulationStopReason::Breakpoint);
+                // a host may confirm its speed setting at any stop
+                if !max_mode && r.chance(1, 4) {
+                    emu.set_speed(EmulationMode::FrameCount(n));
+                }
                 calls += 1;
-                if calls > 100_000 * n as u64 {
+                // a frame has at most frame/4 instructions: more stops than that many per frame (plus slack) means that
+                // the frames are never reported complete
+                if calls > 2 * (n as u64 * (frame as u64 / 4 / bp_k.max(1) + 2) + 2) {
                     stuck = true; // the frames were never reported complete: the count below will not add up
                     break;
                 }
             }
-            slicing.push(n);
+            SW_MODE.with(|m| m.set(0));
+            slicing.push(if max_mode { 0 } else { n });
             left -= n;
         }
         emu.set_debug_interface(VDebug::Never);
